@@ -14,6 +14,7 @@ import Mathlib.Tactic.Positivity
 import Mathlib.Algebra.Order.Field.Basic
 import Mathlib.Algebra.Field.Rat
 import Mathlib.Data.Rat.Cast.CharZero
+import Mathlib.Data.Rat.Lemmas
 
 namespace Atomman.C09
 set_option linter.unusedSimpArgs false
@@ -118,6 +119,14 @@ theorem rpow_rpow {x : K} (hx : 0 < x) (a b : Rat) : rpow (rpow x a) b = rpow x 
     rw [this, rpow_intCast L hx]
   rw [h1, h2]
 
+/-- a law-abiding `rpow` has no freedom where the root exists: if `y > 0` and `y^den q = x^num q` then `rpow x q = y`. -/
+theorem rpow_unique {x y : K} (hx : 0 < x) (hy : 0 < y) (q : Rat) (h : y ^ q.den = x ^ q.num) : rpow x q = y := by
+  have hp := rpow_pos L hx q
+  refine (pow_left_inj₀ hp.le hy.le q.den_nz).mp ?_
+  have hq : ((q.den : Nat) : Rat) * q = (q.num : Int) := by
+    rw [mul_comm]; exact_mod_cast Rat.mul_den_eq_num q
+  rw [← rpow_nat_mul L hx, hq, rpow_intCast L hx, h]
+
 omit L in
 def Scales.Pos (sc : Scales K) : Prop := 0 < sc.m ∧ 0 < sc.kg ∧ 0 < sc.s ∧ 0 < sc.c ∧ 0 < sc.k
 
@@ -171,5 +180,52 @@ theorem factorR_toQ {sc : Scales K} (h : sc.Pos) (d : D5) : factorR rpow sc d.to
   obtain ⟨h1, h2, h3, h4, h5⟩ := h
   simp only [factorR, D5.toQ, factor_eq, rpow_intCast L h1, rpow_intCast L h2, rpow_intCast L h3, rpow_intCast L h4,
     rpow_intCast L h5]
+
+omit L in
+/-- the driver's rational power, where it claims to be exact, is a positive `den q`-th root of `x^num q`. -/
+theorem ratRpowE_exact (x q : Rat) (hx : 0 < x) (h : (ratRpowE x q).2 = true) :
+    0 < (ratRpowE x q).1 ∧ (ratRpowE x q).1 ^ q.den = x ^ q.num := by
+  have hy : 0 < powInt x q.num := by rw [powInt_eq]; exact zpow_pos hx _
+  unfold ratRpowE at h ⊢
+  simp only at h ⊢
+  split at h
+  · rename_i hc
+    rw [if_pos hc]
+    obtain ⟨h1, h2⟩ := hc
+    simp only
+    set y := powInt x q.num with hyd
+    have hnum : 0 < y.num := Rat.num_pos.mpr hy
+    have ha : (y.num.natAbs : Int) = y.num := Int.natAbs_of_nonneg hnum.le
+    have hra : iroot q.den y.num.natAbs ≠ 0 := by
+      intro h0
+      rw [h0, zero_pow q.den_nz] at h1
+      have : y.num.natAbs = 0 := h1.symm
+      omega
+    have hrb : iroot q.den y.den ≠ 0 := by
+      intro h0
+      rw [h0, zero_pow q.den_nz] at h2
+      exact y.den_nz h2.symm
+    have hdiv : mkRat (iroot q.den y.num.natAbs) (iroot q.den y.den)
+        = (iroot q.den y.num.natAbs : Rat) / (iroot q.den y.den : Rat) := by
+      rw [Rat.mkRat_eq_div]; push_cast; rfl
+    rw [hdiv]
+    constructor
+    · have p1 : (0 : Rat) < (iroot q.den y.num.natAbs : Rat) := by exact_mod_cast Nat.pos_of_ne_zero hra
+      have p2 : (0 : Rat) < (iroot q.den y.den : Rat) := by exact_mod_cast Nat.pos_of_ne_zero hrb
+      positivity
+    · rw [div_pow]
+      have e1 : ((iroot q.den y.num.natAbs : Rat)) ^ q.den = (y.num : Rat) := by
+        have : ((iroot q.den y.num.natAbs ^ q.den : Nat) : Rat) = ((y.num.natAbs : Nat) : Rat) := by rw [h1]
+        push_cast at this
+        rw [this]
+        have h3 : ((y.num.natAbs : Int) : Rat) = (y.num : Rat) := by rw [ha]
+        simpa using h3
+      have e2 : ((iroot q.den y.den : Rat)) ^ q.den = (y.den : Rat) := by
+        have : ((iroot q.den y.den ^ q.den : Nat) : Rat) = ((y.den : Nat) : Rat) := by rw [h2]
+        push_cast at this
+        exact this
+      rw [e1, e2, Rat.num_div_den, hyd, powInt_eq]
+  · split at h <;> simp at h
+
 
 end Atomman.C09
